@@ -167,6 +167,10 @@ def chunked_cases(rng, tier):
         vals = [rng.pick([NULL, 1, 2, 3]) if emb == "f64" else rng.pick([1, 2, 3]) for _ in range(n)]
         out.append(dict(op=op, keys=keys, vals=vals, emb=emb, kenc=rng.pick(["f64", "i64"]), klens=lay, T=None, mask=m, sort=rng.pick([0, 1]),
                         pre=rng.pick([[], ["groups"], ["size"]]), tf=int(rng.random() < 0.3)))
+    # a second value column on a quarter of the calls: n_values x pieces tasks, results sliced back per column
+    for c in out:
+        if c["op"] != "size" and rng.random() < 0.25:
+            c["vals2"] = [rng.pick([NULL, 1, 2, 3]) if c["emb"] == "f64" else rng.pick([1, 2, 3]) for _ in c["vals"]]
     return out
 
 
@@ -207,13 +211,13 @@ def run(tier):
     sched.install()
     # (d) reductions over chunked keys, with the per-piece partials of hook H6
     cc = chunked_cases(rng, tier)
-    tcz = ck.drive(chunked.run_chunked, cc, group=lambda c: c["emb"])
+    tcz = [t for r in ck.drive(chunked.run_chunked, cc, group=lambda c: c["emb"]) for t in (r if isinstance(r, list) else [r])]
     ck.notes["chunked_pipeline"] = {"calls": len(tcz), "with_internal_events": sum(t.get("internal", 0) for t in tcz),
-                                    "chunked_objects": sum(t.get("chunked", 0) for t in tcz),
+                                    "chunked_objects": sum(t.get("chunked", 0) for t in tcz), "two_column_traces": sum(1 for t in tcz if t.get("column")),
                                     "rep_pointers": sum(1 for t in tcz if t.get("rep") == "pointers"), "rep_global_chunked": sum(1 for t in tcz if t.get("rep") == "global" and t.get("chunked")),
                                     "empty_leading_chunk_with_negative_start": sum(1 for t in tcz if t["klens"] and t["klens"][0] == 0 and t["mask"]["k"] == "slice" and t["mask"]["s"][0] not in (NONE,) and t["mask"]["s"][0] < -len(t["keys"]))}
     rej = ck.validate("Trace_GBChunked", tcz, chk_trace_cfg(True), "chunked", nontrivial=lambda t: len(t["klens"]) > 1,
-                      key=lambda t: json.dumps([t["kernel"], t["keys"], t["klens"], t["mask"], t["rep"], t["cfg"].get("tf")]))
+                      key=lambda t: json.dumps([t["kernel"], t["keys"], t["vals"], t["klens"], t["mask"], t["rep"], t["cfg"].get("tf"), t.get("column")]))
     if rej:
         # what the public call returned decides; a partial that differs while the result is right is reported, not judged
         rej2 = ck.validate("Trace_GBChunked", rej, chk_trace_cfg(False), "chunked_api_only")
